@@ -422,6 +422,18 @@ pub fn setup_dir(wl: &Workload) -> Option<Vec<u8>> {
     for k in 0..wl.litter {
         fs::write(format!("{}/.tmpLiTr{:02}", DIR, k), b"stale partial out").unwrap();
     }
+    // the static "cannot write here" faults are injected at the seam (the sandbox runs as
+    // root, for whom mode bits do not bite); the mode bits say the same, for code that
+    // looks at them instead of trying
+    {
+        use std::os::unix::fs::PermissionsExt;
+        if wl.ro_file && matches!(wl.initial, InitialOut::File(_)) {
+            let _ = fs::set_permissions(out_path(), fs::Permissions::from_mode(0o444));
+        }
+        if wl.ro_dir {
+            let _ = fs::set_permissions(DIR, fs::Permissions::from_mode(0o555));
+        }
+    }
     initial
 }
 
